@@ -10,6 +10,7 @@ emitted lines is a linearisation of the real interleaving:
   pollapply i   instance lock acquired inside poll_invalidations   (expect: start, drained oids)
   read i oid    cache hit: at the access; load: FilePool reader registered (FileStorage) / storage
                 lock acquired (MappingStorage) inside loadBefore   (expect: hit|load, serial, value)
+  invalall j    instance lock of j acquired inside _invalidateCache (MVCCAdapter.invalidateCache)
   write i oid v assignment in the harness program
   begin i tid   storage lock acquired after the commit lock in tpc_begin (tid assigned there)
   abort i       commit lock released outside a finish section / tm.abort()
@@ -102,6 +103,11 @@ class Tracer:
                 l['k'] = self.emit('read %d %d' % (self.idx(l['inst']), l['oid']), None)
                 l['state'] = 'done'
                 return
+        ia = c.get('invalall')
+        if ia is not None and kind == 'acquired' and role == ia._lock.role:
+            self.emit('invalall %d' % self.idx(ia), 'ok')
+            c['invalall'] = None
+            return
         d = c.get('deliver')
         if d is not None and kind == 'acquired' and role == d._lock.role:
             self.emit('deliver %d' % self.idx(d), 'ok')
@@ -208,6 +214,17 @@ def installed(tr):
     A, I, K = M.MVCCAdapter, M.MVCCAdapterInstance, C.Connection
     o_new, o_invfin, o_inv, o_open, o_close = A.new_instance, A._invalidate_finish, I._invalidate, K.open, K.close
     o_begin = I.tpc_begin
+    o_ic = I._invalidateCache
+
+    def _invalidateCache(self):
+        t = tname()
+        if t is not None and tr.idx(self) is not None:
+            tr.c(t)['invalall'] = self
+        try:
+            return o_ic(self)
+        finally:
+            if t is not None:
+                tr.c(t)['invalall'] = None
 
     def tpc_begin(self, transaction):
         t = tname()
@@ -268,6 +285,7 @@ def installed(tr):
         new_instance, _invalidate_finish, _invalidate, open, close
     I.tpc_begin = tpc_begin
     I.__init__ = inst_init
+    I._invalidateCache = _invalidateCache
     try:
         yield
     finally:
@@ -275,6 +293,7 @@ def installed(tr):
             o_new, o_invfin, o_inv, o_open, o_close
         I.tpc_begin = o_begin
         I.__init__ = o_init
+        I._invalidateCache = o_ic
 
 
 def check_line(op, exp, got):
